@@ -165,6 +165,134 @@ def run(prog, ctx):
                                 bad[1], bad[0], ty.rsplit("::", 1)[-1], c, bad[2], bad[3], block), f.id)
     res.rule("C16.B", n_b, 2, "buffered-length counters")
 
+    # ---------------- C16.T length accounting: the length mixed into the digest (L = the u64 length counter, plus the pending
+    # counter when the finishing routine adds it) grows by exactly len(bytes) per write(), whatever the entry state.  The counter's
+    # change over write() = its direct stores + (calls of helpers that add a constant to it) x (how often each is executed: once
+    # under its path condition, or the trip count of the enclosing `for` over a Range / chunks_exact).
+    n_t = 0
+    for ty, f in sorted(hashers.items()):
+        adt = prog.adts.get(ty)
+        if not adt:
+            continue
+        fields = adt["variants"][0]["fields"]
+        buf = [(n, t) for n, t in fields if t.startswith("[u8; ")]
+        cnt = [n for n, t in fields if t == "usize"]
+        if not buf or len(cnt) != 1:
+            continue
+        block = int(buf[0][1][5:-1])
+        cnt = cnt[0]
+        ctor = [g for g in C.fns_of(prog, ty) if g.argc == 1 and not g.promoted and "{closure" not in g.id]
+        lenf = None
+        for g in ctor:
+            e = C.ret_expr(prog, g)
+            if e is not None and e[0] == "agg" and len(e[2]) == len(fields):
+                zs = [fields[i][0] for i, x in enumerate(e[2]) if fields[i][1] == "u64" and x in (("const", 0), ("const", 0, "u64"))]
+                zs = [z for z in zs if z]
+                if len(zs) == 1:
+                    lenf = zs[0]
+        n_t += 1
+        if lenf is None:
+            res.tri(None, "C16.T", "C16.T|%s" % ty, "no single zero-initialised u64 length counter in %s" % ty, f.id)
+            continue
+        fk, ck = "self.%s" % lenf, "self.%s" % cnt
+        # does the finishing side add the pending counter to the length?
+        adds_pending = False
+        for g in C.fns_of(prog, ty):
+            if g.id == f.id or g.promoted:
+                continue
+            sg = Sym(prog, g)
+            for b in g.blocks:
+                if b.cleanup:
+                    continue
+                for st in b.stmts:
+                    if st[0] == "=" and st[2][0] in ("bin", "checked"):
+                        try:
+                            e = sg.at(b.idx, "t").rvalue(st[2])
+                        except Exception:
+                            continue
+                        if e[0] == "bin" and e[1] in ("Add", "AddWithOverflow") and set(formula.top_leaves(e)) == {fk, ck}:
+                            adds_pending = True
+        s = Sym(prog, f)
+        e_cnt = s.field_exit_value(cnt)
+        e_len = s.field_exit_value(lenf)
+        direct = any(True for _ in sym.field_stores(prog, adt=ty, field=lenf, fns=[f]))
+        if e_cnt is None or (direct and e_len is None):
+            res.tri(None, "C16.T", "C16.T|%s" % ty, "no closed form for the counters of %s at the exit of write()" % ty, f.id)
+            continue
+        # helper calls that add a constant to the length counter
+        sites = []
+        undec = None
+        loops = s.loops()
+        for b, site in f.calls():
+            tgt = site.get("callee")
+            g = prog.fns.get(tgt) if tgt else None
+            if g is None or g.owner != ty:
+                continue
+            stores = any(h.id in prog.fns and any(True for _ in sym.field_stores(prog, adt=ty, field=lenf, fns=[h])) for h in [g] + list(C.reach_from(prog, [g.id])))
+            if not stores:
+                continue
+            eg = Sym(prog, g).field_exit_value(lenf)
+            d = None
+            if eg is not None:
+                try:
+                    d0, d1 = formula.evaluate(eg, {fk: 0}), formula.evaluate(eg, {fk: 1000})
+                    if d1 - d0 == 1000:
+                        d = d0
+                except (formula.Uneval, TypeError):
+                    pass
+            if d is None:
+                undec = "the effect of %s on %s is not a constant increment" % (g.id, lenf)
+                break
+            inl = [(h, body) for h, body in loops if b in body]
+            trip = None
+            if inl:
+                h, body = min(inl, key=lambda x: len(x[1]))
+                nxt = [(bb, st_) for bb, st_ in f.calls() if bb in body and (st_.get("callee") or "").endswith("::next")]
+                latches = [x for x in body if h in f.succs(x)]
+                if len(nxt) != 1 or not all(f.dominates(b, x) for x in latches):
+                    undec = "loop around the call of %s is not a plain counted loop" % g.id
+                    break
+                trip = s.at(nxt[0][0], "t").operand(nxt[0][1]["args"][0])
+                while trip[0] == "call" and trip[1].rsplit("::", 1)[-1] in ("into_iter", "by_ref", "deref_mut"):
+                    trip = trip[2][0]
+                pre = h
+            sites.append((b, g, d, trip, C.path_pred(s, inl and h or b)))
+        if undec:
+            res.tri(None, "C16.T", "C16.T|%s" % ty, undec, f.id)
+            continue
+        bad, n_ev = None, 0
+        try:
+            for b0 in range(block):
+                for ln in range(0, 3 * block + 2):
+                    for t0 in (0, 5 * block):
+                        env = {ck: b0, fk: t0, "len(bytes)": ln, "@prog": prog}
+                        tot = formula.evaluate(e_len, env) if direct else t0
+                        for (b, g, d, trip, pp) in sites:
+                            r = pp(env)
+                            if r is None:
+                                raise formula.Uneval("path condition of block %d" % b)
+                            if not r:
+                                continue
+                            if trip is None:
+                                tot += d
+                            elif trip[0] == "agg" and "Range" in trip[1] and len(trip[2]) == 2:
+                                tot += d * max(0, formula.evaluate(trip[2][1], env) - formula.evaluate(trip[2][0], env))
+                            elif trip[0] == "call" and trip[1].rsplit("::", 1)[-1] == "chunks_exact":
+                                tot += d * (formula.seq_len(trip[2][0], env) // formula.evaluate(trip[2][1], env))
+                            else:
+                                raise formula.Uneval("trip count %s" % show(trip)[:80])
+                        c1 = formula.evaluate(e_cnt, env)
+                        got = tot + (c1 if adds_pending else 0)
+                        want = t0 + (b0 if adds_pending else 0) + ln
+                        n_ev += 1
+                        if got != want and bad is None:
+                            bad = "with %d byte(s) pending and %d accounted, write() of %d byte(s) leaves the digest length at %d, expected %d" % (b0, t0, ln, got, want)
+            res.tri(bad is None, "C16.T", "C16.T|%s" % ty, "%s: %s (length = %s%s)" % (f.id, bad, lenf, " + " + cnt if adds_pending else ""), f.id,
+                    sample={"rule": "C16.T", "fn": f.id, "length": lenf + (" + " + cnt if adds_pending else ""), "helper_sites": [(b, g.id, d, show(trip)[:60] if trip else None) for (b, g, d, trip, pp) in sites], "points": n_ev})
+        except (formula.Uneval, TypeError) as u:
+            res.tri(None, "C16.T", "C16.T|%s" % ty, "length accounting of %s not evaluable: %s" % (ty, u), f.id)
+    res.rule("C16.T", n_t, 2, "length accounting over write()")
+
     # ---------------- C16.K mixing functions
     n_k = 0
 
